@@ -21,12 +21,16 @@ def sh(cmd, **kw):
     return subprocess.run(cmd, shell=True, capture_output=True, text=True, **kw)
 
 
+class StaleAnchor(Exception):
+    pass
+
+
 def apply_mutation(tree, m):
     for f, old, new in m['edits']:
         p = Path(tree) / f
         s = p.read_text()
         if s.count(old) != 1:
-            raise SystemExit(f'mutation {m["id"]}: anchor found {s.count(old)} times in {f}')
+            raise StaleAnchor(f'mutation {m["id"]}: anchor found {s.count(old)} times in {f}')
         p.write_text(s.replace(old, new))
 
 
@@ -36,13 +40,18 @@ def main():
     ap.add_argument('--prop')
     ap.add_argument('--tests', action='store_true', help='also run the repository tests named by the mutation')
     ap.add_argument('--seed', default='0')
+    ap.add_argument('--from-id', help='skip the mutations before this id')
     args = ap.parse_args()
     muts = MUTATIONS
     if args.only:
         muts = [m for m in muts if m['id'] in args.only.split(',')]
     if args.prop:
         muts = [m for m in muts if args.prop in m['props']]
+    if args.from_id:
+        ids = [m['id'] for m in muts]
+        muts = muts[ids.index(args.from_id):]
     results = []
+    stale = []
     for m in muts:
         tree = tempfile.mkdtemp(prefix='vf-st-', dir='/tmp')
         os.rmdir(tree)
@@ -51,7 +60,12 @@ def main():
             print(r.stderr)
             raise SystemExit(1)
         try:
-            apply_mutation(tree, m)
+            try:
+                apply_mutation(tree, m)
+            except StaleAnchor as e:
+                print(str(e))
+                stale.append(m['id'])
+                continue
             row = {'id': m['id'], 'props': m['props'], 'desc': m['desc']}
             if args.tests and m.get('tests'):
                 t = sh(f'cd {tree} && /venv/bin/python -m pytest -q -p no:cacheprovider -x {m["tests"]} 2>&1 | tail -2')
@@ -69,10 +83,10 @@ def main():
             sh(f'git -C /repo worktree remove --force {tree}')
             shutil.rmtree(tree, ignore_errors=True)
     missed = [r['id'] for r in results if any(isinstance(v, dict) and v.get('exit') != 1 for v in r.values())]
-    print(f'{len(results)} mutations, missed: {missed}')
+    print(f'{len(results)} mutations, missed: {missed}, stale anchors: {stale}')
     # the evidence files were rewritten by runs against mutated trees: do not leave them behind
     sh(f'cd {ROOT} && git checkout -- evidence 2>/dev/null')
-    return 1 if missed else 0
+    return 1 if missed or stale else 0
 
 
 if __name__ == '__main__':
